@@ -280,7 +280,7 @@ func genNsqdRoutes(repo string) (string, error) {
 	}
 
 	var sb strings.Builder
-	sb.WriteString("From Coq Require Import String List ZArith.\nImport ListNotations.\nOpen Scope string_scope.\n\n")
+	sb.WriteString("From Coq Require Import String List ZArith.\nImport ListNotations.\nLocal Open Scope string_scope.\n\n")
 	sb.WriteString("(* nsqd/http.go newHTTPServer: (method, path, handler, decorators) *)\n")
 	sb.WriteString("Definition nsqd_routes : list (string * string * string * list string) := [\n  ")
 	sb.WriteString(strings.Join(rows, ";\n  "))
